@@ -901,6 +901,13 @@ _quote_for_query = quote_factory(
 )
 
 
+def _zone_is_unreserved(address):
+    """Whether the zone identifier of an IPv6 address text (the part after
+    the "%", if any) consists of unreserved characters only, which is all that
+    RFC 6874 allows unescaped in a URI's IP literal"""
+    return all(c in unreserved for c in address.partition("%")[2])
+
+
 def _quote_host(host):
     """Express a Uri-Host value in the authority component of a URI
 
@@ -912,12 +919,17 @@ def _quote_host(host):
         # Brackets only count in pairs: "[::1" is no more an address than
         # "::1]", and passing such a value on verbatim yields no usable URI
         bracketed = host.startswith("[") and host.endswith("]")
+        address = host[1:-1] if bracketed else host
         try:
-            ipaddress.IPv6Address(host[1:-1] if bracketed else host)
+            ipaddress.IPv6Address(address)
         except ValueError:
             pass
         else:
-            return host
+            # ipaddress takes any text for a zone identifier; one with
+            # delimiters, blanks or brackets in it can not stand between the
+            # brackets of a URI, so such a value is not an address either
+            if _zone_is_unreserved(address):
+                return host
     return _quote_for_reg_name(host)
 
 
